@@ -698,7 +698,13 @@ class Subspace(IdealPoint):
         # boundary corresponds to the hyperplane where last coordinate vanishes
         sphere_pt_coords = self.ideal_basis_coords(model=Model.HALFSPACE)[..., :-1]
 
-        return utils.sphere_through(sphere_pt_coords)
+        # the k+1 ideal basis points lie on a (k-1)-sphere, centered at
+        # their circumcenter within their affine span (for a hyperplane
+        # this is the sphere through n points of R^(n-1))
+        center = utils.circumcenter(sphere_pt_coords)
+        radius = np.sqrt(utils.normsq(sphere_pt_coords[..., 0, :] - center))
+
+        return center, radius
 
 
     def reflection_across(self):
